@@ -37,9 +37,8 @@ func HCodecRoundTrip() {
 // Param(1) octets: while the payload fits the 16-bit length field it survives the round trip, beyond that
 // Encode returns an error and never a wrapped length.
 func HBigCodec() {
-	kind, n := vr.Param(0), vr.Param(1)
-	VBigLen = n
-	p := VGenPayload(kind, 9)
+	kind := vr.Param(0)
+	p := VGenPayload(kind, 9) // tier 9: the data field has Param(1) octets
 	m := &IKEMessage{IKEHeader: VGenHeader(), Payloads: IKEPayloadContainer{p}}
 	body, berr := p.Marshal()
 	b, err := m.Encode()
